@@ -561,6 +561,8 @@ def run_c16(ctx):
         fx = fixed_cases()
         ctx.violations += judge_cases(ctx, cfg, fx)
         ctx.violations += judge_any_probe(ctx, cfg, 3000 if quick else 30000)
+        from checks import ntarget
+        ctx.violations += ntarget.judge_number_target(ctx, cfg, 1500 if quick else 8000)
         n = 8000 if quick else 60000
         done = 0
         while done < n:
